@@ -170,6 +170,13 @@ class Sem:
         alts = t[2]
         hid = self.hidden_at(i, t)
         acc = set()
+        if 'NL' in self.quirks and n and s[-1] == '\n' and i < n:
+            # defect model: `$` inside the look-ahead also matches before a final newline
+            sub = Sem(s[:-1], self.dot, self.icase, self.strict, self.nosep, self.quirks - {'NL'}, self.fn_star,
+                      self.pathseg)
+            for k in sub.tok_ends(('grp', '@', alts) + (('G',) if is_g(t) else ()), i):
+                if sub.n in sub.ends(rest, k):
+                    return acc
         for j in range(i, n + 1):
             if j > i and s[j - 1] in self.nosep:
                 break
@@ -381,6 +388,9 @@ def path_match3(toks, path, ps, quirks=None):
         implicit = True
     if p_abs != n_abs:
         if n_abs and not p_abs and segs and (implicit or seg_is_gstar(segs[0], ps)):
+            return None
+        if n_abs and not p_abs and segs and nullable(norm_seg(segs[0])):
+            # nullable first segment pattern against the empty segment in front of a leading separator
             return None
         return False
     if ps.nodir and (path.endswith('/') or (parts and parts[-1] in ('.', '..'))):
